@@ -121,3 +121,16 @@ pub proof fn lemma_centered_times_n(n: real, m: real, e: real, s1: real, s2: rea
     assert(s2 * s1 == s1 * s2) by(nonlinear_arith);
     assert(sxy * n == n * sxy) by(nonlinear_arith);
 }
+
+pub proof fn lemma_spread_affine(n: real, s: real, q: real, a: real, b: real)
+    ensures n * ((a * a) * q + 2real * (a * b) * s + n * (b * b)) - (a * s + n * b) * (a * s + n * b) == (a * a) * (n * q - s * s)
+{
+    let u = a * s; let v = n * b;
+    assert((u + v) * (u + v) == u * u + 2real * (u * v) + v * v) by(nonlinear_arith);
+    assert(u * u == (a * a) * (s * s)) by(nonlinear_arith) requires u == a * s;
+    assert(u * v == (a * b) * (s * n)) by(nonlinear_arith) requires u == a * s, v == n * b;
+    assert(v * v == (n * n) * (b * b)) by(nonlinear_arith) requires v == n * b;
+    assert(2real * (a * b) * (s * n) == 2real * ((a * b) * (s * n))) by(nonlinear_arith);
+    assert(n * ((a * a) * q + 2real * (a * b) * s + n * (b * b)) == (a * a) * (n * q) + 2real * (a * b) * (s * n) + (n * n) * (b * b)) by(nonlinear_arith);
+    assert((a * a) * (n * q - s * s) == (a * a) * (n * q) - (a * a) * (s * s)) by(nonlinear_arith);
+}
